@@ -90,11 +90,11 @@ Qed.
 
 (** Shrink with either extreme budget changes no observable content (see C15 for the full
     statement); what the clock can influence is only how much capacity is released per call. *)
-Theorem C12_shrink_budget_invisible : forall s stop0, St s ->
+Theorem C12_shrink_budget_invisible : forall s stop0, St s -> is_locked s = false ->
   exists b s', w_shrink stop0 s = Ok b s' /\ St s' /\ content_same s s' /\ w_pool s' = w_pool s /\
                w_index s' = w_index s /\ side_same s s' /\ frame_user s s' /\ w_archs s' = w_archs s /\
                length (w_tables s') = length (w_tables s).
-Proof. exact shrink_invisible. Qed.
+Proof. exact shrink_invisible_w. Qed.
 
 (** Non-vacuity: an archetype with two relation components whose lookup lists are stored in two
     different orders; freeing a table gives lookup-equal results. *)
